@@ -86,7 +86,7 @@ def discover(target, seconds, seed, max_len=48):
     """Runs the libFuzzer target `target` of fuzz/ against /repo's working tree for `seconds` and returns the corpus directory.
     The fuzzer is an input generator only (nothing it reports is a verdict).  The corpus is a function of (crate sources, target,
     seed, budget) up to scheduling noise and is reused while those are unchanged.  Any failure here is a ToolError."""
-    key = f"{target}-{src_hash()}-{seed}-{seconds}"
+    key = f"{target}-{src_hash()}-{seed}-{seconds}-{max_len}"
     d = os.path.join(WORK, "fuzz", key)
     corpus = os.path.join(d, "corpus")
     if os.path.exists(os.path.join(d, "done")):
